@@ -41,7 +41,7 @@ def strategy(tier):
         "plan": st.lists(st.integers(1, 4), min_size=1, max_size=40),
         # connections (by index) whose single request fails: the application raises before / after it started the response, or the
         # client is gone when the response is written - such requests have been handled too and count like any other
-        "fails": st.lists(st.tuples(st.integers(0, 12), st.sampled_from(["before_start", "mid", "send_fault", "before_start:OSError"])).map(list),
+        "fails": st.lists(st.tuples(st.integers(0, 12), st.sampled_from(["before_start", "mid", "send_fault", "before_start:OSError", "malformed", "malformed"])).map(list),
                           max_size=4),
     })
     t = st.fixed_dictionaries({
@@ -156,6 +156,7 @@ def run_case(case):
     turned_at = None
     fails = dict((f[0], f[1]) for f in case.get("fails", []))
     failed_any = False
+    malformed_seen = 0
     for ci, nreq in enumerate(case["plan"]):
         if not env.worker.alive:
             break
@@ -163,8 +164,13 @@ def run_case(case):
         if how:
             nreq = 1
         raw = b"".join(b"GET /%d/%d HTTP/1.1\r\nHost: h\r\n\r\n" % (ci, j) for j in range(nreq))
+        if how == "malformed":
+            # refused by the server itself (400): whether such a request counts towards the limit is the server's business, but it
+            # must not make the worker miss the limit
+            raw = b"GET /%d HTTP/1.1\r\nBad Header Line\r\n\r\n" % ci
+            malformed_seen += 1
         sock = wenv.FakeSocket([raw], send_fault=(0, 32) if how == "send_fault" else None)
-        if how and how != "send_fault":
+        if how and how not in ("send_fault", "malformed"):
             app.progs = [dict(prog, mode="gen", chunks=["o", "k"], fail=how.split(":")[0], fail_k=1, headers=[],
                               **({"fail_exc": "FileNotFoundError"} if how.endswith(":OSError") else {}))]
         else:
@@ -219,7 +225,7 @@ def run_case(case):
                 # the plan may simply be too short, or a connection ended early (sync serves one request per connection)
                 if served >= limit:
                     V("recycle-at-limit", "worker-still-alive-after-limit", {"served": served, "limit": limit}, "alive false at the limit")
-            elif turned_at != limit:
+            elif not (limit - malformed_seen <= turned_at <= limit):
                 V("recycle-at-limit", "recycled-at-%s-limit" % ("before" if turned_at < limit else "after"),
                   {"turned_at": turned_at, "limit": limit, "max_requests": mr, "draw": draw}, {"turned_at": limit})
         if mr > 0 and calls_to_randint and calls_to_randint[0] != (0, jit):
